@@ -217,7 +217,32 @@ func runPack(c PackCase, rec *h.Rec) error {
 			}
 		}
 		detail := fmt.Sprintf("Pack(idx=%v, inputLogGap=%d, zero=%v) N=%d ntt=%v level=%d keys=GaloisElementsForPack(%d)", c.Idx, c.LogGap, c.Zero, n, c.Spec.NTT, c.Level, arg)
+		// Without garbage zeroing Pack keeps only the positions that are multiples of the largest power of two dividing the
+		// smallest gap between two consecutive input indices ("slots which are not multiples of X^{2^{logGap}}" are garbage,
+		// "and thus possibly entire ciphertexts", see getMinimumGap): only those are compared.
+		keep := 1
+		if !c.Zero {
+			minGap := 1 << 62
+			for i := 1; i < len(c.Idx); i++ {
+				if d := c.Idx[i] - c.Idx[i-1]; d < minGap {
+					minGap = d
+				}
+			}
+			for minGap&1 == 0 {
+				minGap >>= 1
+				keep <<= 1
+			}
+		}
+		noneKept := true
+		for _, j := range c.Idx {
+			noneKept = noneKept && j%keep != 0
+		}
 		out, err := eval.Pack(cts, c.LogGap, c.Zero)
+		if noneKept && err != nil && len(keys.missing) == 0 && !isMissingKey(err) {
+			// every input sits on a position Pack treats as garbage: a (documented) error is the correct answer
+			rec.Class("pack=all-inputs-garbage:error")
+			return nil
+		}
 		if err != nil && !c.KeysFull && c.LogGap < logN && (len(keys.missing) > 0 || isMissingKey(err)) {
 			// listed finding: GaloisElementsForPack(params, logGap) called with Pack's own inputLogGap < LogN advertises
 			// 5^(2^i) for i < logGap, Pack needs i in [LogN-inputLogGap-1, LogN-2]
@@ -247,22 +272,6 @@ func runPack(c PackCase, rec *h.Rec) error {
 		inIdx := map[int]bool{}
 		for _, j := range c.Idx {
 			inIdx[j] = true
-		}
-		// Without garbage zeroing Pack keeps only the positions that are multiples of the largest power of two dividing the
-		// smallest gap between two consecutive input indices ("slots which are not multiples of X^{2^{logGap}}" are garbage,
-		// "and thus possibly entire ciphertexts", see getMinimumGap): only those are compared.
-		keep := 1
-		if !c.Zero {
-			minGap := 1 << 62
-			for i := 1; i < len(c.Idx); i++ {
-				if d := c.Idx[i] - c.Idx[i-1]; d < minGap {
-					minGap = d
-				}
-			}
-			for minGap&1 == 0 {
-				minGap >>= 1
-				keep <<= 1
-			}
 		}
 		for k := 0; k < n; k++ {
 			j := k % gap
